@@ -53,6 +53,16 @@ def make_collators(names):
             out.append(KC.KDIjepaMaskCollator(input_size=32, patch_size=4, num_enc_masks=1, num_pred_masks=2))
         elif nm == "pad":
             out.append(KC.PadSequencesCollator())
+        elif nm == "compose":
+            # composite collators own no generator themselves, they only forward set_rng to their members
+            out.append(KC.KDComposeCollator([KC.KDMixCollator(mixup_alpha=0.8, mixup_p=1.0),
+                                             KC.KDDinoMaskCollator(mask_ratio=(0.1, 0.5), mask_prob=0.5, mask_size=(4, 4))],
+                                            dataset_mode="x class", return_ctx=True))
+        elif nm == "wrapper":
+            out.append(KC.KDSingleCollatorWrapper(KC.KDMixCollator(mixup_alpha=0.8, mixup_p=1.0), dataset_mode="x class"))
+        elif nm == "mae":
+            from kappadata.common.collators.mae_finetune_mix_collator import MAEFinetuneMixCollator
+            out.append(MAEFinetuneMixCollator())
     return out
 
 
@@ -80,6 +90,16 @@ def build(spec, tmpdir):
             from kappadata.wrappers import XTransformWrapper
             other = XTransformWrapper(c08.ImgRoot(2, 1, "img"), transform=KDRandomHorizontalFlip(p=0.5))
             ds = KDConcatDataset([ds, other] if layer == "concat" else [other, ds])
+        elif layer == "concat_shared":
+            # two differently augmented views of one and the same root object, concatenated
+            from kappadata.transforms import KDRandomHorizontalFlip
+            from kappadata.wrappers import XTransformWrapper
+            try:
+                shared_root = ds.root_dataset
+            except Exception:
+                shared_root = c08.ImgRoot(2, 1, "img")
+            other = XTransformWrapper(shared_root, transform=KDRandomHorizontalFlip(p=0.5))
+            ds = KDConcatDataset([ds, other])
         elif layer == "mode":
             from kappadata.wrappers import ModeWrapper
             ds = ModeWrapper(ds, mode="x", return_ctx=False)
@@ -270,12 +290,12 @@ def stack(draw, tier, for_real=False):
         pass
     else:
         w["fam"] = "pipeline"
-    names = ["mix", "dino", "pad"] + ([] if for_real else ["ijepa"])
+    names = ["mix", "dino", "pad", "compose", "wrapper", "mae"] + ([] if for_real else ["ijepa"])
     if kind == "collators_only":
         w["collators"] = draw(st.lists(st.sampled_from(names), min_size=1, max_size=3))
     elif kind != "imagefolder" and draw(st.integers(0, 2)) == 0:
         w["collators"] = draw(st.lists(st.sampled_from(names), min_size=1, max_size=2))
-    top = draw(st.lists(st.sampled_from(["pass", "subset", "concat", "concat_rev", "mode", "interleaved"]), max_size=2))
+    top = draw(st.lists(st.sampled_from(["pass", "subset", "concat", "concat_rev", "concat_shared", "mode", "interleaved"]), max_size=2))
     if "mode" in top or "interleaved" in top:
         # ModeWrapper / the scheduler's dataset are always outermost
         top = [t for t in top if t not in ("mode", "interleaved")] + [next(t for t in top if t in ("mode", "interleaved"))]
